@@ -109,6 +109,22 @@ fn main() {
             }
             0
         }
+        "bench" => {
+            // rough cost breakdown: scenarios executed in this process (no fork) vs isolated
+            let prop = arg(&args, "--prop").expect("--prop");
+            let n: u64 = arg(&args, "--n").unwrap_or("500").parse().unwrap();
+            let iso = flag(&args, "--iso");
+            let t = std::time::Instant::now();
+            let mut execs = 0;
+            for i in 0..n {
+                let scn = scen::generate(prop, 1, i);
+                let (_, st) = if iso { driver::run_once(&scn, false) } else { driver::run_here(&scn, false) };
+                execs += st.execs;
+            }
+            let el = t.elapsed();
+            println!("{} scenarios, {} executions, {:?} total, {:?}/scenario, {:?}/execution", n, execs, el, el / n as u32, el / execs.max(1) as u32);
+            0
+        }
         "parse-time" => {
             for a in &args[2..] {
                 println!("{:?} -> {:?}", a, a.parse::<chrono::DateTime<chrono::Local>>().map(|d| d.with_timezone(&chrono::Utc).to_rfc3339()));
